@@ -246,10 +246,11 @@ example : let r := processBatch Table.ofGen Defects.asImplemented init sampleBat
 example : processBatch Table.ofGen Defects.asImplemented init sampleBatch (some (.stmt 3 0))
     = (init, replies .err sampleBatch) := by decide
 
--- a crash after COMMIT keeps the whole batch, and the restart recomputes the three days
+-- a crash after COMMIT keeps the whole batch, and the restart recomputes the three days (day 0 holds nothing any
+-- more: its entry is removed)
 example : let db' := (crashBatch Table.ofGen init.db sampleBatch .beforeAck).1
     db' = commitBatch Table.ofGen init.db sampleBatch ∧
-    ((restart db').db.log.map fun e => (e.day, e.count, e.dirty)) = [(0, 0, false), (2, 1, false), (1, 2, false)] := by
+    ((restart db').db.log.map fun e => (e.day, e.count, e.dirty)) = [(2, 1, false), (1, 2, false)] := by
   decide
 
 -- the guard of C13_partial is satisfiable by a run with a statement fault and a crash
